@@ -19,6 +19,7 @@ import (
 	"github.com/olric-data/olric"
 	"github.com/olric-data/olric/internal/cluster/partitions"
 	"github.com/olric-data/olric/verifharness/cluster"
+	"github.com/olric-data/olric/verifharness/sched"
 	"github.com/olric-data/olric/verifharness/trace"
 )
 
@@ -382,6 +383,78 @@ func TestC19(t *testing.T) {
 				"after": "1.5 s of background eviction for other DMaps"})
 			sum.Evaluations++
 		}
+		sum.Histories++
+		sum.DistinctNontrivial++
+		p.Close()
+		c.ShutdownAsync()
+	}
+	// The counterexample of FragLife_byname.cfg forced on a real member ("the DMap remains usable for new writes"): the
+	// janitor has picked up a fragment that is empty and waits for its lock (held by a Delete of a missing key that is parked
+	// at del.locked); Destroy wipes that fragment (it does not take the lock); a Put creates the next fragment and is
+	// acknowledged; the Delete goes on, the janitor gets the lock of the OLD fragment, finds it empty and wipes it out.
+	for r := 0; r < envInt("VERIF_C19_WIPERACE", 2); r++ {
+		c, err := cluster.Start(cluster.Options{Replicas: 1, Partitions: 7, Manual: true}, 1)
+		if err != nil {
+			t.Fatal(err)
+		}
+		ctl := sched.Install(int64(envInt("VERIF_SEED", 1)))
+		seq++
+		w.Emit(trace.Ev{"t": "reset", "seq": seq, "cfg": "N=1 R=1, Destroy and a Put while the janitor waits for the lock of an empty fragment"})
+		m := c.Members[0]
+		p := Embedded(m)
+		d, k := "w", fmt.Sprintf("wr%d", r)
+		// the lock is held by a Delete of ANOTHER key of the same partition, which was never written
+		other := ""
+		for i := 0; other == ""; i++ {
+			if o := fmt.Sprintf("other%d", i); partitions.HKey(d, o)%7 == partitions.HKey(d, k)%7 {
+				other = o
+			}
+		}
+		emit := func(op, v string, rep Reply) {
+			w.Emit(trace.Ev{"t": "op", "op": op, "d": d, "k": k, "v": v, "ret": rep.Ret, "detail": rep.Err, "path": p.Name()})
+			sum.Evaluations++
+		}
+		observe := func(after string) {
+			st := []string{}
+			for pid := uint64(0); pid < 7; pid++ {
+				for _, e := range m.V.DMap.VerifEntries(d, pid, partitions.PRIMARY) {
+					st = append(st, e.Key)
+				}
+			}
+			sort.Strings(st)
+			rep := p.Get(ctx, d, k)
+			v := "nil"
+			if rep.Ret == "val" {
+				v = rep.V
+			} else if rep.Ret != "notfound" {
+				v = "error:" + rep.Ret
+			}
+			w.Emit(trace.Ev{"t": "obs", "d": d, "gets": []trace.Ev{{"k": k, "v": v, "path": p.Name()}}, "scan": st, "stored": st, "after": after})
+			sum.Evaluations++
+		}
+		emit("put", "v0", p.Put(ctx, d, k, "v0", PutOpts{}))
+		emit("del", "", p.Delete(ctx, d, k))
+		g := ctl.Hold("del.locked", 0, sched.KeyIs(d, other))
+		delDone, janDone := make(chan Reply, 1), make(chan struct{})
+		go func() { delDone <- p.Delete(ctx, d, other) }()
+		if _, ok := g.WaitArrived(10 * time.Second); !ok {
+			t.Fatalf("wipe race: the Delete never reached del.locked")
+		}
+		go func() { m.V.DMap.VerifJanitor(); close(janDone) }()
+		time.Sleep(150 * time.Millisecond) // the janitor now waits for the fragment lock (or finds the lock later: both are schedules of the model)
+		emit("destroy", "", classify(p.(*dmapPath).Destroy(ctx, d)))
+		emit("put", "v1", p.Put(ctx, d, k, "v1", PutOpts{}))
+		observe("Destroy and Put, janitor still waiting")
+		g.Release()
+		rep := <-delDone
+		w.Emit(trace.Ev{"t": "op", "op": "del-missing", "d": d, "k": other, "v": "", "ret": rep.Ret, "detail": rep.Err, "path": p.Name()})
+		select {
+		case <-janDone:
+		case <-time.After(20 * time.Second):
+			t.Fatalf("wipe race: the janitor did not finish")
+		}
+		observe("the janitor's pass that began before the Destroy")
+		ctl.Reset()
 		sum.Histories++
 		sum.DistinctNontrivial++
 		p.Close()
